@@ -9,21 +9,33 @@ VARIABLES c, k, ipT, binT   \* ipT, binT: memo tables of InPlaneOf / BinOf for c
 Configs ==
   { x \in [N : { n \in 4..MaxN : n % 2 = 0 }, R : 1..MaxR, span : 1..(2 * MaxR - 1), ge : BOOLEAN,
            maxDelta : 0..(MaxR - 1), mash : 1..(MaxN \div 2), tofMash : {0} \cup { m \in 1..MaxTofMash : m % 2 = 1 },
-           maxT : {5}, minTang : {0}, maxTang : {0}, minSeg : {0}, maxSeg : 0..(MaxR - 1), trunc : 0..1] :
+           maxT : {5}, minTang : {0}, maxTang : {0}, minSeg : {0}, maxSeg : 0..(MaxR - 1), trunc : 0..2] :
       /\ (x.ge => x.span = 1)
       /\ x.mash \in {1, 2, 3}
-      /\ x.maxSeg \in { FullMaxSeg(x), FullMaxSeg(x) - 1 } }
-\* tangential range: full (trunc = 0) or reduced asymmetric (trunc = 1); segment range symmetric
+      /\ x.maxSeg \in { FullMaxSeg(x), FullMaxSeg(x) - 1 }
+      /\ (x.trunc = 2 => x.maxSeg >= 1) }
+\* trunc = 0: full tangential range, symmetric segment range; 1: reduced asymmetric tangential range;
+\* 2: asymmetric segment range (one segment fewer at the negative end: reduce_segment_range(-maxSeg + 1, maxSeg))
 Norm(x) == [N |-> x.N, R |-> x.R, span |-> x.span, ge |-> x.ge, maxDelta |-> x.maxDelta, mash |-> x.mash,
             tofMash |-> x.tofMash, maxT |-> x.maxT,
-            minTang |-> IF x.trunc = 0 THEN -(x.N \div 2) + 1 ELSE -((x.N \div 2) - 1) \div 2,
-            maxTang |-> IF x.trunc = 0 THEN (x.N \div 2) - 1 ELSE ((x.N \div 2) - 1) \div 2 - (IF x.N > 4 THEN 1 ELSE 0),
-            minSeg |-> -x.maxSeg, maxSeg |-> x.maxSeg]
+            minTang |-> IF x.trunc # 1 THEN -(x.N \div 2) + 1 ELSE -((x.N \div 2) - 1) \div 2,
+            maxTang |-> IF x.trunc # 1 THEN (x.N \div 2) - 1 ELSE ((x.N \div 2) - 1) \div 2 - (IF x.N > 4 THEN 1 ELSE 0),
+            minSeg |-> IF x.trunc = 2 THEN -x.maxSeg + 1 ELSE -x.maxSeg, maxSeg |-> x.maxSeg]
+
+\* the view subset used for T9: every second view, from the last one downwards
+SubsetOf(cc) == [ i \in 1..((NumViewsOf(cc) + 1) \div 2) |-> NumViewsOf(cc) - 1 - 2 * (i - 1) ]
+\* the in-place changes tried for T13
+Changes(cc) ==
+  { << "views", v, 0 >> : v \in 1..NV(cc) } \cup
+  { << "tang", t[1], t[2] >> : t \in (-(NV(cc))..NV(cc)) \X (-(NV(cc))..NV(cc)) } \cup
+  { << "tofmash", m, 0 >> : m \in -1..(cc.maxT + 1) } \cup
+  { << "segrange", t[1], t[2] >> : t \in ((cc.minSeg - 1)..(cc.maxSeg + 1)) \X ((cc.minSeg - 1)..(cc.maxSeg + 1)) } \cup
+  { << "maxdelta", d, 0 >> : d \in 0..cc.R }
 
 Init == /\ k = 0 /\ ipT = <<>> /\ binT = <<>>
         /\ c \in { Norm(x) : x \in Configs }
-        /\ LegalConfig(c)
-Next == /\ k < 7 /\ k' = k + 1 /\ c' = c
+        /\ LegalConfigA(c)
+Next == /\ k < 10 /\ k' = k + 1 /\ c' = c
         /\ ipT' = IF k = 0 THEN IpTable(c) ELSE ipT
         /\ binT' = IF k = 1 THEN BinTable(c, ipT) ELSE binT
 Spec == Init /\ [][Next]_<<c, k, ipT, binT>>
@@ -35,4 +47,8 @@ Inv4 == k = 4 => T4(c, binT)
 Inv5 == k = 5 => T5(c)
 Inv6 == k = 6 => T6(c, binT)
 Inv7 == k = 7 => T7(c)
+Inv8 == k = 8 => T8(c)
+Inv9 == k = 9 => (LegalViews(c, SubsetOf(c)) /\ T9(c, SubsetOf(c), binT))
+Inv13 == k = 10 => \A ch \in Changes(c) : T13(c, ch[1], ch[2], ch[3])
+\* non-vacuity of T13: some change of every kind is legal somewhere (checked by the runner through coverage of Inv13)
 =============================================================================
